@@ -19,13 +19,15 @@
  *     X<cpu> emit OHx | e emit OHe | M<type>:<value> ovni_mark_set | T<type>:<title> ovni_mark_type |
  *     F flush | AD<key>=<double> AS<key>=<str> AB<key>=<0|1> AJ<key>=<json> attr set | G attr_flush |
  *     Z thread_free | N bare ovni_clock_now | B second barrier | Y yield | S<n> spin | U<us> usleep
- * output: one line per thread  "t <idx> done=<ops completed> died=<op index|-1> retries=<n>"
+ * output: one line per thread  "t <idx> done=<ops completed> died=<op index|-1> retries=<n> why=<die() format>"
  *         then "main init=<ok|refused|none> fini=<ok|refused|none>"
  */
 #define _GNU_SOURCE
 #include <pthread.h>
+#include <stdarg.h>
 #include <sched.h>
 #include <setjmp.h>
+#include <stdatomic.h>
 #include <stdint.h>
 #include <stdio.h>
 #include <stdlib.h>
@@ -44,6 +46,7 @@ struct thr {
 	int done;          /* ops completed */
 	int died;          /* index of the op inside which the library aborted, or -1 */
 	long retries;
+	const char *why;   /* format string of the die() that refused this thread */
 	int pc;
 	int retrying;
 	jmp_buf top;
@@ -56,17 +59,45 @@ static int nthreads;
 static int app = 1, pid = 1;
 static char loom[512] = "rtconc";
 static int main_init, main_fini, drop;
-static pthread_barrier_t start, second;
+static pthread_barrier_t start;
+static atomic_int start_cnt, second_cnt;
+static int nsecond;
+
+/* spinning barrier: the waiters leave within nanoseconds of each other, which a futex wake-up
+ * does not give; yields when the machine is oversubscribed */
+static void spin_barrier(atomic_int *cnt, int n)
+{
+	long spins = 0;
+	atomic_fetch_add(cnt, 1);
+	while (atomic_load(cnt) < n)
+		if (++spins % 20000 == 0)
+			sched_yield();
+}
 static _Thread_local struct thr *self;
 static jmp_buf main_jb;
 static int main_armed;
+
+/* Interposed as well: vaerr() prints the die() message with vfprintf(stderr, fmt, ap); the
+ * format string tells WHY the library refused (kept per thread, reported, and used by the
+ * late joiner to retry only on "process not ready"). */
+static _Thread_local const char *last_fmt;
+int vfprintf(FILE *f, const char *fmt, va_list ap)
+{
+	char buf[4096];
+	last_fmt = fmt;
+	int n = vsnprintf(buf, sizeof(buf), fmt, ap);
+	if (n > 0)
+		fwrite(buf, 1, (size_t) n < sizeof(buf) ? (size_t) n : sizeof(buf) - 1, f);
+	return n;
+}
 
 /* Interposed: reached by libovni's vdie(). Must not return. */
 void abort(void)
 {
 	struct thr *t = self;
 	if (t) {
-		if (t->retrying) {
+		t->why = last_fmt;
+		if (t->retrying && last_fmt && strcmp(last_fmt, "process not ready") == 0) {
 			t->retries++;
 			longjmp(t->retry, 1);
 		}
@@ -155,7 +186,7 @@ static void run_op(struct thr *t, char *op)
 	case 'G': ovni_attr_flush(); break;
 	case 'Z': ovni_thread_free(); break;
 	case 'N': sink += ovni_clock_now(); break;
-	case 'B': pthread_barrier_wait(&second); break;
+	case 'B': spin_barrier(&second_cnt, nsecond); break;
 	case 'Y': sched_yield(); break;
 	case 'S': { long n = atol(op + 1); for (long i = 0; i < n; i++) sink += (unsigned long) i; break; }
 	case 'U': usleep((useconds_t) atoi(op + 1)); break;
@@ -168,6 +199,7 @@ static void *body(void *arg)
 	struct thr *t = arg;
 	self = t;
 	pthread_barrier_wait(&start);
+	spin_barrier(&start_cnt, nthreads);
 	if (setjmp(t->top) == 0) {
 		for (t->pc = 0; t->pc < t->nops; t->pc++) {
 			run_op(t, t->ops[t->pc]);
@@ -177,7 +209,7 @@ static void *body(void *arg)
 		/* refused inside op t->died: a thread blocked nobody may wait for */
 		for (int k = t->died + 1; k < t->nops; k++)
 			if (t->ops[k][0] == 'B')
-				pthread_barrier_wait(&second);
+				spin_barrier(&second_cnt, nsecond);
 	}
 	self = NULL;
 	return NULL;
@@ -189,7 +221,6 @@ int main(int argc, char **argv)
 	FILE *f = fopen(argv[1], "r");
 	if (!f) { perror(argv[1]); return 2; }
 	static char line[1 << 20];
-	int nsecond = 0;
 	while (fgets(line, sizeof(line), f)) {
 		char *save = NULL;
 		char *w = strtok_r(line, " \n", &save);
@@ -229,7 +260,6 @@ int main(int argc, char **argv)
 		main_armed = 0;
 	}
 	pthread_barrier_init(&start, NULL, (unsigned) nthreads);
-	if (nsecond) pthread_barrier_init(&second, NULL, (unsigned) nsecond);
 	for (int i = 0; i < nthreads; i++)
 		if (pthread_create(&T[i].th, NULL, body, &T[i]) != 0) { perror("pthread_create"); return 2; }
 	for (int i = 0; i < nthreads; i++)
@@ -241,7 +271,8 @@ int main(int argc, char **argv)
 		main_armed = 0;
 	}
 	for (int i = 0; i < nthreads; i++)
-		printf("t %d done=%d died=%d retries=%ld\n", T[i].idx, T[i].done, T[i].died, T[i].retries);
+		printf("t %d done=%d died=%d retries=%ld why=%s\n", T[i].idx, T[i].done, T[i].died, T[i].retries,
+				T[i].died >= 0 && T[i].why ? T[i].why : "-");
 	printf("main init=%s fini=%s\n", mi, mf);
 	fflush(stdout);
 	return 0;
